@@ -45,6 +45,17 @@ func IsValidBigModN(N *big.Int, ints ...*big.Int) bool {
 	return true
 }
 
+// maxAnnouncedBits bounds the ANNOUNCED size of an integer received from a peer. saferith's exponentiation iterates over the
+// announced length of the exponent, not over its true length, so a small value left-padded with zero bytes passes every
+// TrueLen test and still costs time proportional to its padding. Honest announced lengths stay well below twice the largest
+// true bound (sums of the announced lengths of the factors of a product).
+const maxAnnouncedBits = 4 * (1 + params.LPrimePlusEpsilon + 2*params.BitsIntModN)
+
+// hasBoundedAnnouncedLen returns false for integers whose announced size is out of any honest range.
+func hasBoundedAnnouncedLen(n *saferith.Int) bool {
+	return n.AnnouncedLen() <= maxAnnouncedBits
+}
+
 // IsBoundedInt returns true if n is not nil and |n| < 2¹⁺ˡ⁺ᵉ⋅N² (for N of the size of a Paillier modulus).
 // No honest prover sends a larger integer (the largest one is V in zkfac), so verifiers use this bound to refuse
 // oversized integers before they are used as exponents.
@@ -52,7 +63,7 @@ func IsBoundedInt(n *saferith.Int) bool {
 	if n == nil {
 		return false
 	}
-	return n.TrueLen() <= 1+params.LPlusEpsilon+2*params.BitsIntModN
+	return hasBoundedAnnouncedLen(n) && n.TrueLen() <= 1+params.LPlusEpsilon+2*params.BitsIntModN
 }
 
 // IsInPlaintextRange returns true if n ∈ [-(N-1)/2,…,(N-1)/2], the range of messages accepted by paillier's EncWithNonce.
@@ -60,7 +71,7 @@ func IsInPlaintextRange(N *saferith.Modulus, n *saferith.Int) bool {
 	if N == nil || n == nil {
 		return false
 	}
-	if n.TrueLen() > N.BitLen() {
+	if !hasBoundedAnnouncedLen(n) || n.TrueLen() > N.BitLen() {
 		return false
 	}
 	nHalf := new(saferith.Nat).SetNat(N.Nat())
@@ -74,7 +85,7 @@ func IsInIntervalLEps(n *saferith.Int) bool {
 	if n == nil {
 		return false
 	}
-	return n.TrueLen() <= params.LPlusEpsilon
+	return hasBoundedAnnouncedLen(n) && n.TrueLen() <= params.LPlusEpsilon
 }
 
 // IsInIntervalLPrimeEps returns true if n ∈ [-2ˡ'⁺ᵉ,…,2ˡ'⁺ᵉ].
@@ -82,7 +93,7 @@ func IsInIntervalLPrimeEps(n *saferith.Int) bool {
 	if n == nil {
 		return false
 	}
-	return n.TrueLen() <= params.LPrimePlusEpsilon
+	return hasBoundedAnnouncedLen(n) && n.TrueLen() <= params.LPrimePlusEpsilon
 }
 
 // IsInIntervalLEpsPlus1RootN returns true if n ∈ [-2¹⁺ˡ⁺ᵉ√N,…,2¹⁺ˡ⁺ᵉ√N], for a Paillier modulus N.
@@ -90,5 +101,5 @@ func IsInIntervalLEpsPlus1RootN(n *saferith.Int) bool {
 	if n == nil {
 		return false
 	}
-	return n.TrueLen() <= 1+params.LPlusEpsilon+(params.BitsIntModN/2)
+	return hasBoundedAnnouncedLen(n) && n.TrueLen() <= 1+params.LPlusEpsilon+(params.BitsIntModN/2)
 }
